@@ -252,6 +252,17 @@ def extract(prog):
                 kinds = gov[1] if isnorm else {kd.value}
                 kw_tests.append((frozenset(kinds), tested_norm, isnorm
                                  or is_const(kd), y, gov[2]))
+                # the word tested has had its parentheses peeled on both
+                # sides (`(not` and `not)` are the keyword too)
+                txt = U(en.expand(gov[0]))
+                sides = {m for m in ('lstrip', 'rstrip')
+                         if '.%s(' % m in txt}
+                if len(sides) == 1:
+                    tf.problems.append((
+                        'C01.T1', y, 'the keyword test is made on a word '
+                        'peeled on one side only (%s): a keyword glued to '
+                        'the other parenthesis, as the printers write it, is '
+                        'taken for a check' % sorted(sides)[0]))
             # string classification
             if is_const(kd, 'string'):
                 tf.string_value = val
